@@ -1770,9 +1770,12 @@ class DynDiGraph(nx.DiGraph):
         H.add_nodes_from(self)
 
         if reciprocal is True:
+            done = set()
             for u in self._node:
-                for v in self._node:
-                    if u >= v:
+                for v in self._succ[u]:
+                    # each reciprocal pair once; node ids only need to be hashable, not orderable
+                    if u in self._succ[v] and (v, u) not in done:
+                        done.add((u, v))
                         try:
                             outc = self._succ[u][v]['t']
                             intc = self._pred[u][v]['t']
